@@ -18,7 +18,7 @@ for gi in map(int, sys.argv[2:]):
             c = c[c.index('mkCase'):]
             hdr = src[:src.index('Definition base_index')]
             tmp = os.path.join(rd, 'dbg.v')
-            open(tmp, 'w').write(hdr + 'Definition c := %s.\nEval vm_compute in (let r := value (c_ctx c) (c_expr c) in (fst r, diag_ids (snd r), map d_frags (snd r))).\nEval vm_compute in (c_val c, c_diags c, c_mode c).\nEval vm_compute in c_expr c.\n' % c)
+            open(tmp, 'w').write(hdr + 'Definition c := %s.\nEval vm_compute in (let r := value (c_ctx c) (c_expr c) in (fst r, diag_ids (snd r), map d_frags (snd r))).\nEval vm_compute in (c_val c, c_diags c, c_mode c).\nEval vm_compute in c_expr c.\nEval vm_compute in (variables (c_expr c), c_vars c).\n' % c)
             out = subprocess.run('coqc -Q /verif/coq/theories HclV -w -notation-overridden dbg.v', shell=True, cwd=rd, capture_output=True, text=True)
             print('=== case', gi, rep['case_index'][gi][:300])
             print(out.stdout[-3000:], out.stderr[-1500:])
